@@ -1,4 +1,5 @@
 import RLV.Lemmas.TypedTables
+import RLV.Lemmas.TypedUnicode
 /-! C02 — What the user types is what Readline returns (property theorems only; lemmas live in
 RLV/Lemmas/Loop.lean and RLV/Lemmas/TypedTables.lean).
 
@@ -33,6 +34,68 @@ theorem typed_ascii_returned_viins (s : List Nat) (hs : ∀ b ∈ s, printable b
   have := typed_ascii_returned (s.length + 1 + chunks.length + 1) chunks _ [] s g hs
     (by simpa [sh0] using hc) (by simp [sh0, hc])
   simpa using this
+
+/-! Any Unicode text. `Typable r`: `r` is printable ASCII, or any rune above 0x7F that has a UTF-8 encoding of
+its own (a scalar value: not a surrogate, at most U+10FFFF) other than U+FFFD, the decoder's error value;
+`utf8 rs` is the concatenation of the UTF-8 encodings (Go's `string(rs)`). The reads may be cut anywhere:
+between characters, inside a character, after the first byte of a character whose first byte also starts a
+bound sequence (U+FFFD is bound in the default keymaps, so every character U+F000..U+FFFF begins like a
+bind). `om` is `output-meta`: with it off `self-insert` shows the characters U+0080..U+00FF in `^[x`
+notation (the property's "usual UTF-8 meta settings" have it on), so they are excluded then;
+`convert-meta` is off in `sh0` (with it on the bytes above 0x7F are meta keys, not text).
+The UTF-8 codec of the model (`encodeRune`, `decodeRune`, `fullRune`: Go's unicode/utf8) is itself the
+subject of `decode_encode` (Lemmas/Utf8.lean): decoding the encoding of a valid rune gives it back. -/
+
+theorem goodU_sh0 (tbl : List (List Nat × Bind)) (om em : Bool) (ht : TableOK (sh0 tbl om em).eng)
+    (hh : HighTbl (norm tbl)) : GoodU (sh0 tbl om em) [] :=
+  ⟨ht, hh, by cases em <;> rfl, rfl, rfl, rfl, rfl, rfl, rfl, rfl⟩
+
+/-- C02 on the regenerated Emacs keymap: whatever the text and however its bytes are cut into reads, a line
+of typable characters typed into a fresh shell and accepted with Return is returned unchanged. -/
+theorem typed_unicode_returned_emacs (rs : List Nat) (hrs : ∀ r ∈ rs, Typable r)
+    (chunks : List (List Nat)) (hc : chunks.flatten = utf8 rs ++ [13]) (om em : Bool)
+    (hom : om = true ∨ ∀ r ∈ rs, ¬ (0x80 ≤ r ∧ r ≤ 0xff)) :
+    run (2 * (chunks.flatten.length + chunks.length) + 2) chunks (sh0 Gen.emacs om em) = .ok (some rs) := by
+  have g := goodU_sh0 Gen.emacs om em (emacs_tableOK _ rfl (by simp [sh0]) (by simp [sh0]))
+    (highTbl_of_ok _ _ (norm_perm Gen.emacs) Gen.emacs_high)
+  have := typed_unicode_returned (2 * (chunks.flatten.length + chunks.length) + 2) chunks _ [] rs g hrs hom
+    (by simpa [sh0] using hc) (by intro h; simp [sh0] at h)
+    (by have : needRead (sh0 Gen.emacs om em).eng.keys = true := rfl
+        rw [if_pos this]; simp [sh0]; omega)
+  simpa using this
+
+/-- the same on the regenerated Vi-insert keymap -/
+theorem typed_unicode_returned_viins (rs : List Nat) (hrs : ∀ r ∈ rs, Typable r)
+    (chunks : List (List Nat)) (hc : chunks.flatten = utf8 rs ++ [13]) (om em : Bool)
+    (hom : om = true ∨ ∀ r ∈ rs, ¬ (0x80 ≤ r ∧ r ≤ 0xff)) :
+    run (2 * (chunks.flatten.length + chunks.length) + 2) chunks (sh0 Gen.vi_insert om em) = .ok (some rs) := by
+  have g := goodU_sh0 Gen.vi_insert om em (viins_tableOK _ rfl (by simp [sh0]) (by simp [sh0]))
+    (highTbl_of_ok _ _ (norm_perm Gen.vi_insert) Gen.viins_high)
+  have := typed_unicode_returned (2 * (chunks.flatten.length + chunks.length) + 2) chunks _ [] rs g hrs hom
+    (by simpa [sh0] using hc) (by intro h; simp [sh0] at h)
+    (by have : needRead (sh0 Gen.vi_insert om em).eng.keys = true := rfl
+        rw [if_pos this]; simp [sh0]; omega)
+  simpa using this
+
+/-- Go's UTF-8 decoder applied to Go's UTF-8 encoder is the identity on valid runes, whatever bytes follow
+(the model of unicode/utf8 the theorems above stand on). -/
+theorem utf8_decode_encode (r : Nat) (hv : ValidRune r) (rest : List Nat) :
+    decodeRune (encodeRune r ++ rest) = (r, (encodeRune r).length) :=
+  decode_encode r hv rest
+
+-- non-vacuity: "é中😀!" (2, 3 and 4 bytes, and ASCII) is typable; its bytes cut inside each character
+theorem sample_typable : ∀ r ∈ [0xe9, 0x4e2d, 0x1f600, 0x21], Typable r := by
+  intro r hr
+  simp only [List.mem_cons, List.mem_nil_iff, or_false] at hr
+  rcases hr with rfl | rfl | rfl | rfl
+  · exact Or.inr ⟨by omega, ⟨by omega, by omega⟩, by omega⟩
+  · exact Or.inr ⟨by omega, ⟨by omega, by omega⟩, by omega⟩
+  · exact Or.inr ⟨by omega, ⟨by omega, by omega⟩, by omega⟩
+  · exact Or.inl ⟨by omega, by omega⟩
+-- the theorem instantiated on that script
+example :=
+  typed_unicode_returned_emacs [0xe9, 0x4e2d, 0x1f600, 0x21] sample_typable
+    [[0xc3], [0xa9, 0xe4, 0xb8], [0xad, 0xf0], [0x9f, 0x98], [0x80, 0x21, 13]] (by decide) true true (Or.inl rfl)
 
 -- non-vacuity: the hypotheses are met by a concrete script in three reads, cut inside the text
 example : (∀ b ∈ [104, 105, 32, 33], printable b) ∧
